@@ -1,10 +1,11 @@
 import Pm.Daemon
+import Pm.TelnetPass
 /-! Helper lemmas for C04 (client half), C06, C15: the shape of everything `client.c` writes to a client.
 
 The structure of the output is made explicit "the other way round": `render : List Item → Bytes` turns a list of
 protocol items (a line `NNN text CRLF`, or the prompt) into bytes, and each function that appends to a client's
 `toBuf` is shown to append `render items` for an explicit item list of the right shape. -/
-namespace Pm.Daemon
+namespace Pm.Daemon.ClientPf
 open Pm Pm.Client
 open Pm.Dev2 (Dev Action Stmt Plug Arg ExecCtx PState PResult ActErr RxCall Oracle Env CS getArgs)
 
@@ -145,7 +146,7 @@ theorem parseLine_eq (w : W) (c : Cli) (line : Bytes) : parseLine w c line = par
 
 /-! ### `createR` (hostlist_create after the F1 repair) has no fatal outcome -/
 
-def CR.isFatal : CR → Bool | .fatal => true | _ => false
+def _root_.Pm.Daemon.CR.isFatal : CR → Bool | .fatal => true | _ => false
 
 theorem foldl_inv {α β : Type} (P : β → Prop) (f : β → α → β) (hf : ∀ b a, P b → P (f b a)) :
     ∀ (l : List α) (b : β), P b → P (l.foldl f b) := by
@@ -1054,4 +1055,4 @@ theorem handleInput_tail (w : W) (c : Cli) (h : (handleInput w c).1.exited = fal
   conv => lhs; arg 2; rw [← this]
   simp
 
-end Pm.Daemon
+end Pm.Daemon.ClientPf
